@@ -522,7 +522,88 @@ def run_rebound_ancestor_member(w) -> None:
         loaded.unload()
 
 
+OBJECT_DEFAULTS_SOURCE = '''
+import icontract
+
+
+class A(icontract.DBC):
+    def __init__(self, tag="<a>", key=1):
+        self.tag, self.key = tag, key
+
+    @icontract.ensure(lambda result: result.startswith("<"))
+    def __str__(self):
+        return self.tag
+
+    @icontract.ensure(lambda result: result >= 0)
+    def __hash__(self):
+        return self.key
+
+    @icontract.ensure(lambda result: result != "")
+    def __format__(self, spec):
+        return self.tag
+
+    @icontract.ensure(lambda other, result: result is False or other is not None)
+    def __eq__(self, other):
+        return other is not None and type(other) is type(self)
+
+
+class B(A):
+    """Overrides without contracts of its own: the postconditions of A still bind it."""
+    def __str__(self):
+        return "b" + self.tag
+
+    def __hash__(self):
+        return self.key
+
+    def __format__(self, spec):
+        return ""
+
+    def __eq__(self, other):
+        return True
+
+
+class C(B):
+    @icontract.ensure(lambda result: len(result) < 100)
+    def __str__(self):
+        return "c" + self.tag
+'''
+
+
+def run_object_default_members(w) -> None:
+    """Special methods for which `object` provides a default (__str__, __hash__, __format__, __eq__) are members like any other once a
+    class of the hierarchy defines them with contracts: an override inherits the postconditions."""
+    import icontract  # pylint: disable=import-outside-toplevel
+
+    loaded = prog.load_source(OBJECT_DEFAULTS_SOURCE, w.scratch())
+    mod = loaded.module
+    try:
+        for tag, call, want in (
+                ("A.__str__ holds", lambda: str(mod.A()), "returned"), ("B.__str__ violates the inherited postcondition", lambda: str(mod.B()), "violation"),
+                ("C.__str__ violates the postcondition of its grand-parent", lambda: str(mod.C()), "violation"),
+                ("B.__hash__ holds", lambda: hash(mod.B(key=3)), "returned"), ("B.__hash__ violates", lambda: hash(mod.B(key=-3)), "violation"),
+                ("A.__format__ holds", lambda: format(mod.A(), ""), "returned"), ("B.__format__ violates", lambda: format(mod.B(), ""), "violation"),
+                ("A.__eq__ holds", lambda: mod.A() == None, "returned"),  # noqa: E711  pylint: disable=singleton-comparison
+                ("B.__eq__ violates", lambda: mod.B() == None, "violation")):  # noqa: E711  pylint: disable=singleton-comparison
+            try:
+                call()
+                got = "returned"
+            except icontract.ViolationError:
+                got = "violation"
+            except BaseException as err:  # pylint: disable=broad-except
+                got = "raised {}: {}".format(type(err).__name__, str(err)[:100])
+            w.count("calls")
+            w.count("object_default_member_calls")
+            w.case(("object-default-member", tag))
+            if got != want:
+                w.violation("C04/inherited-postcondition-of-a-special-method-not-enforced", "{}: {} (expected {})".format(tag, got, want),
+                            {"object_defaults": tag})
+    finally:
+        loaded.unload()
+
+
 def run(w) -> None:
+    if w.shard == 3 % w.nshards:
+        run_object_default_members(w)
     if w.shard == 1 % w.nshards:
         run_overruled_groups(w)
     if w.shard == 2 % w.nshards:
@@ -539,6 +620,9 @@ def replay(case, w) -> None:
         return
     if "rebound" in case:
         run_rebound_ancestor_member(w)
+        return
+    if "object_defaults" in case:
+        run_object_default_members(w)
         return
     spec = case["prog"]
     model = Model(spec)
